@@ -14,7 +14,7 @@ Fixpoint pf_instr (i : instr) : Prop :=
   match i with
   | INat (NBody _) => True
   | INat _ => False
-  | ICall b _ | IDeferFn b _ =>
+  | ICall b _ | IDeferFn b _ | ICallback b _ =>
       (fix all (l : list instr) : Prop := match l with [] => True | x :: r => pf_instr x /\ all r end) b
   | IDeferNat (NBody _) => True
   | IDeferNat _ => False
@@ -33,14 +33,14 @@ Definition pf_func (f : func) : Prop := pf_body (fbody f).
    registered first; it is emitted when the function returns *)
 Fixpoint tr_instr (i : instr) : list event :=
   match i with
-  | ICall b _ | IDeferFn b _ =>
+  | ICall b _ | IDeferFn b _ | ICallback b _ =>
       (fix go (l : list instr) (ds : list event) : list event :=
          match l with
          | [] => ds
          | x :: r =>
              match x with
              | INat (NBody n) => EBody n :: go r ds
-             | ICall _ _ => tr_instr x ++ go r ds
+             | ICall _ _ | ICallback _ _ => tr_instr x ++ go r ds
              | IDeferFn _ _ => go r (tr_instr x ++ ds)
              | IDeferNat (NBody n) => go r (EBody n :: ds)
              | IRecover false => ERecover None :: go r ds
@@ -57,7 +57,7 @@ Fixpoint tr_body (l : list instr) (ds : list event) : list event :=
   | x :: r =>
       match x with
       | INat (NBody n) => EBody n :: tr_body r ds
-      | ICall _ _ => tr_instr x ++ tr_body r ds
+      | ICall _ _ | ICallback _ _ => tr_instr x ++ tr_body r ds
       | IDeferFn _ _ => tr_body r (tr_instr x ++ ds)
       | IDeferNat (NBody n) => tr_body r (EBody n :: ds)
       | IRecover false => ERecover None :: tr_body r ds
@@ -74,6 +74,10 @@ Lemma tr_instr_defer b inf : tr_instr (IDeferFn b inf) = tr_body b [].
 Proof. reflexivity. Qed.
 Lemma pf_instr_call b inf : pf_instr (ICall b inf) = pf_body b.
 Proof. reflexivity. Qed.
+Lemma tr_instr_callback b inf : tr_instr (ICallback b inf) = tr_body b [].
+Proof. reflexivity. Qed.
+Lemma pf_instr_callback b inf : pf_instr (ICallback b inf) = pf_body b.
+Proof. reflexivity. Qed.
 Lemma pf_instr_defer b inf : pf_instr (IDeferFn b inf) = pf_body b.
 Proof. reflexivity. Qed.
 
@@ -85,6 +89,8 @@ Proof. reflexivity. Qed.
 Lemma bsize_call b inf : isize (ICall b inf) = S (bsize b).
 Proof. reflexivity. Qed.
 Lemma bsize_defer b inf : isize (IDeferFn b inf) = S (bsize b).
+Proof. reflexivity. Qed.
+Lemma bsize_callback b inf : isize (ICallback b inf) = S (bsize b).
 Proof. reflexivity. Qed.
 
 (* ------------------------------------------------------------------ *)
@@ -116,6 +122,12 @@ Lemma dropped_panic_witness :
                    IDeferFn [IPanic 1] [(0, 11%N)]; IPanic 3] [(2, 13%N)] in
   vm_run 60 w = Some (OPanic [(3, false, Some 13)]%N, [ERecover (Some 4%N)]) /\
   go_run 60 w = Some (OPanic [(1, false, Some 11); (3, false, Some 13)]%N, [ERecover (Some 4%N)]).
+Proof. split; vm_compute; reflexivity. Qed.
+
+Lemma callback_panic_witness :
+  let w := mkfunc [IDeferFn [IRecover false] []; ICallback [IPanic 7] [(0, 3%N)]] [] in
+  vm_run 40 w = Some (OCbPanic [(7, false)]%N, []) /\
+  go_run 40 w = Some (ONil, [ERecover (Some 7%N)]).
 Proof. split; vm_compute; reflexivity. Qed.
 
 (* ------------------------------------------------------------------ *)
@@ -184,7 +196,7 @@ Proof. destruct i; simpl; lia. Qed.
 Lemma step_started t A fr junk g :
   smode t = MNext (S (length A)) -> scalls t = A ++ fr :: junk ->
   fstat fr = Started -> fcl fr = CFn g ->
-  step t = Next (mkstate MExec (Some g) (fpc fr) A (schain t) (str t) (sraised t)).
+  step t = Next (mkstate MExec (Some g) (fpc fr) A (schain t) (str t) (sraised t) (souter t)).
 Proof.
   intros Hm Hc Hs Hg. unfold step. rewrite Hm. unfold step_next. rewrite Hc, nth_error_mid, Hs.
   unfold after_switch. rewrite Hg, Hc, firstn_exact. reflexivity.
@@ -237,15 +249,15 @@ Qed.
 
 Lemma after_switch_fn s h i st :
   after_switch s (mkframe (CFn h) 0 st) i
-  = Next (mkstate MExec (Some h) 0 (firstn i (scalls s)) (schain s) (str s) (sraised s)).
+  = Next (mkstate MExec (Some h) 0 (firstn i (scalls s)) (schain s) (str s) (sraised s) (souter s)).
 Proof. reflexivity. Qed.
 
 Lemma after_switch_body s n i st :
   after_switch s (mkframe (CNat (NBody n)) 0 st) i = Next (set_mode (emit s (EBody n)) (MNext i)).
 Proof. reflexivity. Qed.
 
-Ltac proj_in H := unfold set_calls, set_mode, emit, set_pc in H; cbn [smode sfn spc scalls schain str sraised] in H.
-Ltac proj := unfold set_calls, set_mode, emit, set_pc; cbn [smode sfn spc scalls schain str sraised].
+Ltac proj_in H := unfold set_calls, set_mode, emit, set_pc in H; cbn [smode sfn spc scalls schain str sraised souter] in H.
+Ltac proj := unfold set_calls, set_mode, emit, set_pc; cbn [smode sfn spc scalls schain str sraised souter].
 
 (* ------------------------------------------------------------------ *)
 (* The simulation                                                       *)
@@ -262,9 +274,9 @@ Definition pf_callee (c : callee) : Prop :=
   match c with CFn f => pf_func f | CNat (NBody _) => True | CNat _ => False end.
 
 (* t is in the loop of nextCall, about to examine the top of base *)
-Definition ret_like (base : list frame) (tr : list event) (r : N) (t : state) : Prop :=
+Definition ret_like (base : list frame) (tr : list event) (r : N) (o : list saved) (t : state) : Prop :=
   smode t = MNext (length base) /\ (exists junk, scalls t = base ++ junk) /\
-  schain t = [] /\ str t = tr /\ sraised t = r.
+  schain t = [] /\ str t = tr /\ sraised t = r /\ souter t = o.
 
 (* the top of base is the frame of a caller or of a function that is running its deferred calls *)
 Definition top_sr (base : list frame) : Prop :=
@@ -283,9 +295,9 @@ Proof.
 Qed.
 
 Definition fn_ok (f : func) : Prop :=
-  forall base tr r, top_sr base ->
-    exists t, leads (mkstate MExec (Some f) 0 base [] tr r) t /\
-              ret_like base (rev (pf_trace f) ++ tr) r t.
+  forall base tr r o, top_sr base ->
+    exists t, leads (mkstate MExec (Some f) 0 base [] tr r o) t /\
+              ret_like base (rev (pf_trace f) ++ tr) r o t.
 
 Definition callee_ok (c : callee) : Prop :=
   match c with CFn g => fn_ok g | CNat _ => True end.
@@ -294,12 +306,12 @@ Lemma dfr_length ds : length (dfr ds) = length ds.
 Proof. unfold dfr. rewrite map_length, rev_length. reflexivity. Qed.
 
 (* the deferred calls that remain below the frame of a returned function are run, the last registered first *)
-Lemma after_deferred : forall ds base x tr r t0,
+Lemma after_deferred : forall ds base x tr r o t0,
   Forall pf_callee ds -> Forall callee_ok ds -> top_sr base ->
-  ret_like (base ++ dfr ds ++ [mkframe x 0 Returned]) tr r t0 ->
-  exists t, leads t0 t /\ ret_like base (rev (tr_defers ds) ++ tr) r t.
+  ret_like (base ++ dfr ds ++ [mkframe x 0 Returned]) tr r o t0 ->
+  exists t, leads t0 t /\ ret_like base (rev (tr_defers ds) ++ tr) r o t.
 Proof.
-  induction ds as [|c ds IH]; intros base x tr r t0 Hpf Hok Htop [Hm [[junk Hc] [Hch [Htr Hr]]]].
+  induction ds as [|c ds IH]; intros base x tr r o t0 Hpf Hok Htop [Hm [[junk Hc] [Hch [Htr [Hr Ho]]]]].
   - simpl in *. rewrite app_length in Hm. simpl in Hm. replace (length base + 1) with (S (length base)) in Hm by lia.
     rewrite <- app_assoc in Hc. simpl in Hc.
     exists (set_mode t0 (MNext (length base))). split.
@@ -322,10 +334,10 @@ Proof.
       replace (S (length A)) with (length (A ++ [mkframe x 0 Returned])) in Hstep
         by (rewrite app_length; simpl; lia).
       rewrite firstn_exact in Hstep.
-      destruct (Hoc (A ++ [mkframe x 0 Returned]) (str t0) (sraised t0)) as [t1 [Hl1 Hr1]].
+      destruct (Hoc (A ++ [mkframe x 0 Returned]) (str t0) (sraised t0) (souter t0)) as [t1 [Hl1 Hr1]].
       { apply top_sr_snoc. right. reflexivity. }
       rewrite Hch in Hstep.
-      destruct (IH base x (rev (pf_trace h) ++ str t0) (sraised t0) t1 Hpds Hods Htop) as [t [Hl Hrl]].
+      destruct (IH base x (rev (pf_trace h) ++ str t0) (sraised t0) (souter t0) t1 Hpds Hods Htop) as [t [Hl Hrl]].
       { unfold A in Hr1. rewrite <- app_assoc in Hr1. exact Hr1. }
       exists t. split.
       * eapply leads_trans; [apply leads_step; exact Hstep|]. eapply leads_trans; eassumption.
@@ -333,7 +345,7 @@ Proof.
     + destruct nk as [n| | |]; simpl in Hpc; try contradiction.
       rewrite after_switch_body in Hstep.
       match type of Hstep with _ = Next ?u => set (t1 := u) in * end.
-      destruct (IH base x (EBody n :: str t0) (sraised t0) t1 Hpds Hods Htop) as [t [Hl Hrl]].
+      destruct (IH base x (EBody n :: str t0) (sraised t0) (souter t0) t1 Hpds Hods Htop) as [t [Hl Hrl]].
       { unfold t1. repeat split; proj.
         - f_equal. unfold A. repeat rewrite app_length. simpl. lia.
         - exists (mkframe x 0 Returned :: junk). unfold A. repeat rewrite <- app_assoc. reflexivity.
@@ -362,7 +374,10 @@ Lemma step_exec_at s f ins :
             | IPanic v => raise s f (Nat.pred (spc s)) v
             | ICall b inf =>
                 Next (mkstate MExec (Some (mkfunc b inf)) 0 (scalls s ++ [mkframe (CFn f) (spc s) Started])
-                              (schain s) (str s) (sraised s))
+                              (schain s) (str s) (sraised s) (souter s))
+            | ICallback b inf =>
+                Next (mkstate MExec (Some (mkfunc b inf)) 0 [] [] (str s) (sraised s)
+                              (mksaved f (spc s) (scalls s) (schain s) :: souter s))
             | IDeferFn b inf => Next (set_calls s (scalls s ++ [mkframe (CFn (mkfunc b inf)) 0 Deferred]))
             | IDeferNat nk => Next (set_calls s (scalls s ++ [mkframe (CNat nk) 0 Deferred]))
             | IRecover down => do_recover s down
@@ -375,8 +390,8 @@ Lemma step_exec_at s f ins :
                     | Some call =>
                         if status_eqb (fstat call) Started then
                           match fcl call with
-                          | CFn g => Next (mkstate MExec (Some g) (fpc call) (firstn i (scalls s)) (schain s) (str s) (sraised s))
-                          | CNat _ => Next (mkstate MExec None (fpc call) (firstn i (scalls s)) (schain s) (str s) (sraised s))
+                          | CFn g => Next (mkstate MExec (Some g) (fpc call) (firstn i (scalls s)) (schain s) (str s) (sraised s) (souter s))
+                          | CNat _ => Next (mkstate MExec None (fpc call) (firstn i (scalls s)) (schain s) (str s) (sraised s) (souter s))
                           end
                         else Next (set_mode s (MNext (S i)))
                     end
@@ -387,14 +402,14 @@ Proof.
 Qed.
 
 (* OpReturn of a function whose pending deferred calls are ds *)
-Lemma do_return_defers f pc : forall ds base tr r,
+Lemma do_return_defers f pc : forall ds base tr r o,
   fetch f pc = Some IReturn ->
   Forall pf_callee ds -> Forall callee_ok ds -> top_sr base ->
-  exists t, leads (mkstate MExec (Some f) pc (base ++ dfr ds) [] tr r) t /\
-            ret_like base (rev (tr_defers ds) ++ tr) r t.
+  exists t, leads (mkstate MExec (Some f) pc (base ++ dfr ds) [] tr r o) t /\
+            ret_like base (rev (tr_defers ds) ++ tr) r o t.
 Proof.
-  intros ds base tr r Hfe Hpf Hok Htop.
-  set (s := mkstate MExec (Some f) pc (base ++ dfr ds) [] tr r).
+  intros ds base tr r o Hfe Hpf Hok Htop.
+  set (s := mkstate MExec (Some f) pc (base ++ dfr ds) [] tr r o).
   assert (Hstep := step_exec_at s f IReturn eq_refl eq_refl Hfe).
   unfold s in Hstep at 2. cbv zeta in Hstep. proj_in Hstep.
   destruct ds as [|c ds].
@@ -402,7 +417,7 @@ Proof.
     simpl. unfold dfr in *. simpl in *. rewrite app_nil_r in *.
     destruct (length base) as [|i] eqn:Hl.
     + destruct base; [|discriminate].
-      exists (mkstate (MNext 0) (Some f) (S pc) [] [] tr r). split.
+      exists (mkstate (MNext 0) (Some f) (S pc) [] [] tr r o). split.
       * apply leads_same_step. rewrite Hstep. reflexivity.
       * repeat split. exists []. reflexivity.
     + assert (Hb : exists A fr, base = A ++ [fr] /\ length A = i).
@@ -415,7 +430,7 @@ Proof.
       rewrite nth_error_mid in Hx. specialize (Hx eq_refl).
       destruct Hx as [[Hst [g Hg]]|Hst].
       * rewrite Hst, Hg in Hstep. simpl in Hstep. rewrite firstn_exact in Hstep.
-        exists (mkstate (MNext (length (A ++ [fr]))) (Some f) (S pc) (A ++ [fr]) [] tr r). split.
+        exists (mkstate (MNext (length (A ++ [fr]))) (Some f) (S pc) (A ++ [fr]) [] tr r o). split.
         -- apply leads_same_step. rewrite Hstep. symmetry.
            rewrite app_length. simpl. replace (length A + 1) with (S (length A)) by lia.
            erewrite step_started; [reflexivity|reflexivity|reflexivity|exact Hst|exact Hg].
@@ -440,9 +455,9 @@ Proof.
       replace (A ++ [mkframe (CFn f) 0 Returned]) with ((A ++ [mkframe (CFn f) 0 Returned]) ++ []) in Hstep1 by apply app_nil_r.
       replace (S (length A)) with (length (A ++ [mkframe (CFn f) 0 Returned])) in Hstep1 by (rewrite app_length; simpl; lia).
       rewrite firstn_exact in Hstep1.
-      destruct (Hoc (A ++ [mkframe (CFn f) 0 Returned]) tr r) as [t1 [Hl1 Hr1]].
+      destruct (Hoc (A ++ [mkframe (CFn f) 0 Returned]) tr r o) as [t1 [Hl1 Hr1]].
       { apply top_sr_snoc. right. reflexivity. }
-      destruct (after_deferred ds base (CFn f) (rev (pf_trace h) ++ tr) r t1 Hpds Hods Htop) as [t [Hl Hrl]].
+      destruct (after_deferred ds base (CFn f) (rev (pf_trace h) ++ tr) r o t1 Hpds Hods Htop) as [t [Hl Hrl]].
       { unfold A in Hr1. rewrite <- app_assoc in Hr1. exact Hr1. }
       exists t. split.
       * subst s.
@@ -453,7 +468,7 @@ Proof.
     + destruct nk as [n| | |]; simpl in Hpc; try contradiction.
       rewrite after_switch_body in Hstep1.
       match type of Hstep1 with _ = Next ?u => set (t1 := u) in * end.
-      destruct (after_deferred ds base (CFn f) (EBody n :: tr) r t1 Hpds Hods Htop) as [t [Hl Hrl]].
+      destruct (after_deferred ds base (CFn f) (EBody n :: tr) r o t1 Hpds Hods Htop) as [t [Hl Hrl]].
       { unfold t1. repeat split; proj.
         - f_equal. unfold A. repeat rewrite app_length. simpl. lia.
         - exists []. unfold A. repeat rewrite <- app_assoc. rewrite app_nil_r. reflexivity. }
@@ -490,31 +505,31 @@ Definition small_callee (bound : nat) (c : callee) : Prop :=
 
 Lemma exec_suffix f :
   (forall g, bsize (fbody g) < bsize (fbody f) -> pf_func g -> fn_ok g) ->
-  forall rest pre ds base tr r,
+  forall rest pre ds base tr r o,
     fbody f = pre ++ rest -> pf_body rest ->
     Forall pf_callee ds -> Forall (small_callee (bsize (fbody f))) ds -> top_sr base ->
-    exists t, leads (mkstate MExec (Some f) (length pre) (base ++ dfr ds) [] tr r) t /\
-              ret_like base (rev (tr_body rest (tr_defers ds)) ++ tr) r t.
+    exists t, leads (mkstate MExec (Some f) (length pre) (base ++ dfr ds) [] tr r o) t /\
+              ret_like base (rev (tr_body rest (tr_defers ds)) ++ tr) r o t.
 Proof.
   intros IHf.
   assert (Hoks : forall ds, Forall pf_callee ds -> Forall (small_callee (bsize (fbody f))) ds -> Forall callee_ok ds).
   { induction ds as [|c ds IHd]; intros Hp Hs; constructor.
     - inversion Hp; inversion Hs; subst. destruct c as [g|]; [|exact I]. apply IHf; assumption.
     - inversion Hp; inversion Hs; subst. apply IHd; assumption. }
-  induction rest as [|x rest IH]; intros pre ds base tr r Hbody Hpf Hpds Hsm Htop.
+  induction rest as [|x rest IH]; intros pre ds base tr r o Hbody Hpf Hpds Hsm Htop.
   - rewrite app_nil_r in Hbody. subst pre. simpl.
     apply do_return_defers; auto. apply fetch_return_end.
   - assert (Hfe := fetch_at f pre x rest Hbody).
-    set (s := mkstate MExec (Some f) (length pre) (base ++ dfr ds) [] tr r).
+    set (s := mkstate MExec (Some f) (length pre) (base ++ dfr ds) [] tr r o).
     assert (Hstep := step_exec_at s f x eq_refl eq_refl Hfe).
     unfold s in Hstep at 2. cbv zeta in Hstep. proj_in Hstep.
     assert (Hbody' : fbody f = (pre ++ [x]) ++ rest) by (rewrite <- app_assoc; exact Hbody).
     assert (Hlen : length (pre ++ [x]) = S (length pre)) by (rewrite app_length; simpl; lia).
     destruct Hpf as [Hpx Hprest].
-    destruct x as [k|b inf|b inf|k|v|down|].
+    destruct x as [k|b inf|b inf|k|v|down| |b inf].
     + (* hook body *)
       destruct k as [n| | |]; simpl in Hpx; try contradiction.
-      destruct (IH (pre ++ [INat (NBody n)]) ds base (EBody n :: tr) r Hbody' Hprest Hpds Hsm Htop) as [t [Hl Hr]].
+      destruct (IH (pre ++ [INat (NBody n)]) ds base (EBody n :: tr) r o Hbody' Hprest Hpds Hsm Htop) as [t [Hl Hr]].
       rewrite Hlen in Hl. exists t. split.
       * eapply leads_trans; [apply leads_step; exact Hstep|exact Hl].
       * simpl. rewrite <- app_assoc. exact Hr.
@@ -522,15 +537,15 @@ Proof.
       rewrite pf_instr_call in Hpx.
       assert (Hsz : bsize b < bsize (fbody f)).
       { rewrite Hbody, bsize_app, bsize_cons, bsize_call. lia. }
-      destruct (IHf (mkfunc b inf) Hsz Hpx ((base ++ dfr ds) ++ [mkframe (CFn f) (S (length pre)) Started]) tr r)
+      destruct (IHf (mkfunc b inf) Hsz Hpx ((base ++ dfr ds) ++ [mkframe (CFn f) (S (length pre)) Started]) tr r o)
         as [t1 [Hl1 Hr1]].
       { apply top_sr_snoc. left. split; [reflexivity|]. exists f. reflexivity. }
-      destruct Hr1 as [Hm1 [[junk Hc1] [Hch1 [Htr1 Hra1]]]].
+      destruct Hr1 as [Hm1 [[junk Hc1] [Hch1 [Htr1 [Hra1 Ho1]]]]].
       rewrite app_length in Hm1. simpl in Hm1. replace (length (base ++ dfr ds) + 1) with (S (length (base ++ dfr ds))) in Hm1 by lia.
       rewrite <- app_assoc in Hc1. simpl in Hc1.
       assert (Hstep1 := step_started t1 (base ++ dfr ds) _ junk f Hm1 Hc1 eq_refl eq_refl).
-      cbn [fpc] in Hstep1. rewrite Hch1, Htr1, Hra1 in Hstep1.
-      destruct (IH (pre ++ [ICall b inf]) ds base (rev (pf_trace (mkfunc b inf)) ++ tr) r Hbody' Hprest Hpds Hsm Htop) as [t [Hl Hr]].
+      cbn [fpc] in Hstep1. rewrite Hch1, Htr1, Hra1, Ho1 in Hstep1.
+      destruct (IH (pre ++ [ICall b inf]) ds base (rev (pf_trace (mkfunc b inf)) ++ tr) r o Hbody' Hprest Hpds Hsm Htop) as [t [Hl Hr]].
       rewrite Hlen in Hl. exists t. split.
       * eapply leads_trans; [apply leads_step; exact Hstep|].
         eapply leads_trans; [exact Hl1|].
@@ -541,14 +556,14 @@ Proof.
       rewrite pf_instr_defer in Hpx.
       assert (Hsz : bsize b < bsize (fbody f)).
       { rewrite Hbody, bsize_app, bsize_cons, bsize_defer. lia. }
-      destruct (IH (pre ++ [IDeferFn b inf]) (CFn (mkfunc b inf) :: ds) base tr r Hbody' Hprest) as [t [Hl Hr]];
+      destruct (IH (pre ++ [IDeferFn b inf]) (CFn (mkfunc b inf) :: ds) base tr r o Hbody' Hprest) as [t [Hl Hr]];
         [constructor; [exact Hpx|exact Hpds]|constructor; [exact Hsz|exact Hsm]|exact Htop|].
       rewrite Hlen, dfr_cons, app_assoc in Hl. exists t. split.
       * eapply leads_trans; [apply leads_step; exact Hstep|exact Hl].
       * exact Hr.
     + (* defer of a native hook *)
       destruct k as [n| | |]; simpl in Hpx; try contradiction.
-      destruct (IH (pre ++ [IDeferNat (NBody n)]) (CNat (NBody n) :: ds) base tr r Hbody' Hprest) as [t [Hl Hr]];
+      destruct (IH (pre ++ [IDeferNat (NBody n)]) (CNat (NBody n) :: ds) base tr r o Hbody' Hprest) as [t [Hl Hr]];
         [constructor; [exact I|exact Hpds]|constructor; [exact I|exact Hsm]|exact Htop|].
       rewrite Hlen, dfr_cons, app_assoc in Hl. exists t. split.
       * eapply leads_trans; [apply leads_step; exact Hstep|exact Hl].
@@ -558,19 +573,38 @@ Proof.
       simpl in Hpx. subst down.
       unfold do_recover, recover_start in Hstep. proj_in Hstep.
       rewrite recover_search_dfr in Hstep by exact Htop. unfold emit_rec in Hstep. proj_in Hstep.
-      destruct (IH (pre ++ [IRecover false]) ds base (ERecover None :: tr) r Hbody' Hprest Hpds Hsm Htop) as [t [Hl Hr]].
+      destruct (IH (pre ++ [IRecover false]) ds base (ERecover None :: tr) r o Hbody' Hprest Hpds Hsm Htop) as [t [Hl Hr]].
       rewrite Hlen in Hl. exists t. split.
       * eapply leads_trans; [apply leads_step; exact Hstep|exact Hl].
       * simpl. rewrite <- app_assoc. exact Hr.
     + (* return *)
       simpl tr_body. apply do_return_defers; auto.
+    + (* a native function calls back the function: a new VM runs it to its end, then this one goes on *)
+      rewrite pf_instr_callback in Hpx.
+      assert (Hsz : bsize b < bsize (fbody f)).
+      { rewrite Hbody, bsize_app, bsize_cons, bsize_callback. lia. }
+      set (sv := mksaved f (S (length pre)) (base ++ dfr ds) []) in *.
+      destruct (IHf (mkfunc b inf) Hsz Hpx [] tr r (sv :: o)) as [t1 [Hl1 Hr1]].
+      { intros y Hy. simpl in Hy. discriminate. }
+      destruct Hr1 as [Hm1 [_ [Hch1 [Htr1 [Hra1 Ho1]]]]].
+      assert (Hstep1 : step t1 = Next (mkstate MExec (Some f) (S (length pre)) (base ++ dfr ds) []
+                                         (rev (pf_trace (mkfunc b inf)) ++ tr) r o)).
+      { unfold step. rewrite Hm1. simpl. unfold finish. rewrite Hch1, Ho1. unfold resume. simpl.
+        rewrite Htr1, Hra1. reflexivity. }
+      destruct (IH (pre ++ [ICallback b inf]) ds base (rev (pf_trace (mkfunc b inf)) ++ tr) r o Hbody' Hprest Hpds Hsm Htop) as [t [Hl Hr]].
+      rewrite Hlen in Hl. exists t. split.
+      * eapply leads_trans; [apply leads_step; exact Hstep|].
+        eapply leads_trans; [exact Hl1|].
+        eapply leads_trans; [apply leads_step; exact Hstep1|exact Hl].
+      * change (tr_body (ICallback b inf :: rest) (tr_defers ds)) with (tr_body b [] ++ tr_body rest (tr_defers ds)).
+        rewrite rev_app_distr, <- app_assoc. exact Hr.
 Qed.
 
 Lemma fn_ok_all : forall n f, bsize (fbody f) < n -> pf_func f -> fn_ok f.
 Proof.
   induction n; intros f Hn Hpf; [lia|].
-  intros base tr r Htop.
-  destruct (exec_suffix f (fun g Hg Hp => IHn g ltac:(lia) Hp) (fbody f) [] [] base tr r eq_refl Hpf
+  intros base tr r o Htop.
+  destruct (exec_suffix f (fun g Hg Hp => IHn g ltac:(lia) Hp) (fbody f) [] [] base tr r o eq_refl Hpf
               (Forall_nil _) (Forall_nil _) Htop) as [t [Hl Hr]].
   unfold dfr in Hl. simpl in Hl. rewrite app_nil_r in Hl.
   exists t. split; [exact Hl|exact Hr].
@@ -582,10 +616,10 @@ Theorem defer_lifo f :
   pf_func f -> exists n, forall m, n <= m -> vm_run m f = Some (ONil, pf_trace f).
 Proof.
   intros Hpf.
-  destruct (fn_ok_all (S (bsize (fbody f))) f ltac:(lia) Hpf [] [] 0%N) as [t [Hl [Hm [_ [Hch [Htr _]]]]]].
+  destruct (fn_ok_all (S (bsize (fbody f))) f ltac:(lia) Hpf [] [] 0%N []) as [t [Hl [Hm [_ [Hch [Htr [_ Ho]]]]]]].
   { intros x Hx. destruct (pred (length (@nil frame))); discriminate. }
   assert (Hrun : run 1 t = Some (ONil, pf_trace f)).
-  { simpl. unfold step. rewrite Hm. simpl. unfold finish. rewrite Hch, Htr, app_nil_r, rev_involutive. reflexivity. }
+  { simpl. unfold step. rewrite Hm. simpl. unfold finish. rewrite Hch, Ho, Htr, app_nil_r, rev_involutive. reflexivity. }
   destruct (Hl 1 _ Hrun) as [n Hn]. exists n. intros m Hle. unfold vm_run.
   eapply run_mono; eassumption.
 Qed.
@@ -631,7 +665,7 @@ Proof.
   intros Hrec. induction b as [|x b IH]; intros pc ds g Hpf Hsz Hpds Hfit Hg.
   - simpl. apply g_rundefers_pf with (n := n); assumption.
   - destruct Hpf as [Hpx Hpb]. rewrite bsize_cons in Hsz. assert (Hp := isize_pos x).
-    destruct x as [k|b' inf|b' inf|k|v|down|].
+    destruct x as [k|b' inf|b' inf|k|v|down| |b' inf].
     + destruct k as [m| | |]; simpl in Hpx; try contradiction.
       simpl g_body. rewrite (IH (S pc) ds (gemit g (EBody m)) Hpb ltac:(lia) Hpds Hfit Hg).
       unfold gadd, gemit. simpl. rewrite <- app_assoc. reflexivity.
@@ -658,6 +692,11 @@ Proof.
       rewrite (IH (S pc) ds (gemit g (ERecover None)) Hpb ltac:(lia) Hpds Hfit Hg).
       unfold gadd, gemit. simpl. rewrite <- app_assoc. reflexivity.
     + simpl g_body. simpl tr_body. apply g_rundefers_pf with (n := n); assumption.
+    + rewrite pf_instr_callback in Hpx. rewrite bsize_callback in Hsz.
+      simpl g_body.
+      rewrite (Hrec (mkfunc b' inf) false false g Hpx ltac:(unfold fsize; simpl; lia) Hg).
+      rewrite (IH (S pc) ds (gadd g (pf_trace (mkfunc b' inf))) Hpb ltac:(lia) Hpds Hfit eq_refl).
+      rewrite gadd_app. reflexivity.
 Qed.
 
 Lemma gfn_pf : forall fuel, rec_ok fuel (gfn fuel).
